@@ -1,12 +1,16 @@
 """C19 — estimateMemory bounds the memory requested while loading and convolving.
 
 Proof : PsV/Props/C19.lean (C19_peak_le_estimate, C19_peak_read_le_estimate, C19_live_after_convolve,
-        C19_loadable_consistent, C19_convolvable_iff, C19_peak_le_estimate_loadable, decided witnesses),
+        C19_loadable_consistent, C19_convolvable_iff, C19_peak_le_estimate_loadable, decided witnesses;
+        deepened: C19_peak_exact, C19_peak_aux_order, C19_lifecycle (with the destructor's call sites),
+        C19_peak_cost_le_estimate / _aligned_ / _arena_ (arenas that use more than requested), C19_estimate_mono,
+        C19_estimate_le_peak_plus, C19_tight_family, C19_relative_slack_vanishes),
         stated about PsV/Generated/C19.lean, which tools/gen_c19.py regenerates from the working tree on every run
         (size terms of estimateMemory, allocator call sites of read_fits_core and convolve in source order with the
         condition of the second block of a quoted aux value, the reader's shape validation, constants).
 Tie   : harness/c19_harness.cpp loads generated files into splinetable<CountingAlloc> and convolves them; per case the
-        real estimateMemory value, the measured peak / live bytes and the exact sequence of allocator requests (sizes)
+        real estimateMemory value, the measured peak / live bytes, the peak with blocks rounded up to 16 bytes, the bytes
+        live after destruction and the exact sequence of allocator requests (sizes) of constructor, convolve and destructor
         must EQUAL what the Lean definitions compute from the file description (exact line equality).  Files whose
         shape the generated validation predicate refuses must be refused by the library, and vice versa.
 Oracle: measured peak <= real estimateMemory value (independent of the model)."""
@@ -28,7 +32,7 @@ def parse_case(c):
 def parse_impl(line):
     w = line.split()
     if not w or w[0] != "est": return None
-    return {"est": int(w[1]), "estdef": int(w[3]), "peak": int(w[5]), "live": int(w[7])}
+    return {"est": int(w[1]), "estdef": int(w[3]), "peak": int(w[5]), "live": int(w[7]), "pad16": int(w[9]), "end": int(w[11])}
 
 
 def run(ctx):
@@ -49,7 +53,8 @@ def run(ctx):
                                      "size_terms": gen["estimate"]["loop_terms_src"] + gen["estimate"]["fixed_src"] + [gen["estimate"]["rounding_src"]],
                                      "read_sites": gen["read_sites"], "convolve_sites": gen["convolve_sites"],
                                      "reader_rejects": gen["reader_rejects"], "convolve_rejects": gen["convolve_rejects"],
-                                     "read_info": gen["read_info"], "convolve_info": gen["convolve_info"]}
+                                     "read_info": gen["read_info"], "convolve_info": gen["convolve_info"],
+                                     "destroy_sites": gen["destroy_sites"], "routines_without_allocator_calls": gen["routines_without_allocator_calls"]}
     # 2. proofs about the generated definitions + driver
     ctx.audit()
     # 3. harness from the working tree
@@ -57,6 +62,7 @@ def run(ctx):
     n_g, n_i = (500, 150) if ctx.tier == "quick" else (8000, 1500)
     seen, evals, dist = set(), 0, {}
     worst = None
+    worst16, leaks = None, 0
     refused = {"files": 0, "transient_above_estimate": 0, "largest_transient_minus_estimate": None}
     for mode in modes:
         exe = ctx.compile("c19_" + mode, ["c19_harness.cpp"], mode=mode)
@@ -72,7 +78,8 @@ def run(ctx):
                               "C19 harness %s (rc=%d) while loading/convolving generated tables: %s" % ("timed out" if rc == 124 else "aborted", rc, err[-500:]))
                 continue
             stats = json.load(open(prefix + ".stats.json")); dist[mode + ":" + profile] = stats
-            for k in ("reserved_rule_disagreements", "aux_cross_check_failures", "stored_cross_check_failures"):
+            for k in ("reserved_rule_disagreements", "aux_cross_check_failures", "stored_cross_check_failures",
+                      "dealloc_size_mismatch_during_load_or_convolve", "tables_leaving_bytes_live_after_destruction"):
                 if stats.get(k, 0):
                     ctx.tie_ok = False; ctx.broken.append({"kind": "harness self-check failed: " + k, "count": stats[k]})
             model = prefix + ".model"
@@ -138,6 +145,10 @@ def run(ctx):
                                            "impl_head": " ".join(wi[:8]), "model_head": " ".join(wm[:8])})
                 if profile == "G" and (pc["doconv"] or pc["naux"] > 0): seen.add(c)
                 slack = pi["est"] - pi["peak"]
+                if profile == "G":
+                    s16 = pi["est"] - pc["objsize"] - pi["pad16"]
+                    if worst16 is None or s16 < worst16[0]: worst16 = (s16, pc["ndim"], pc["naux"], pc["n"], pi["est"], pi["pad16"])
+                    if pi["end"] != 0: leaks += 1
                 if profile == "G" and (worst is None or slack < worst[0]): worst = (slack, pc["ndim"], pc["naux"], pc["n"], pi["est"], pi["peak"])
                 if len(ctx.coverage["samples"]) < 5 and profile == "G" and pc["doconv"] and pc["naux"] > 3:
                     ctx.coverage["samples"].append({"ndim": pc["ndim"], "orders": [d["order"] for d in pc["dims"]], "nknots": [d["nknots"] for d in pc["dims"]],
@@ -152,9 +163,13 @@ def run(ctx):
                             "library and generated predicate must both refuse")
     ctx.coverage["refused_files"] = refused
     ctx.coverage["input_distribution"] = dist
+    if worst16: ctx.coverage["smallest_slack_with_16_byte_blocks"] = {"estimate_minus_object_minus_peak16": worst16[0], "ndim": worst16[1], "naux": worst16[2], "kernel_knots": worst16[3], "estimate": worst16[4], "peak_with_blocks_rounded_up_to_16": worst16[5],
+                                                                          "note": "measured by the harness' ledger, equal to the model's padEvents 16 on every line; Lean: C19_peak_aligned_le_estimate"}
+    ctx.coverage["tables_with_bytes_live_after_destruction"] = leaks
     if worst: ctx.coverage["smallest_slack"] = {"estimate_minus_peak": worst[0], "ndim": worst[1], "naux": worst[2], "kernel_knots": worst[3], "estimate": worst[4], "peak": worst[5]}
     ctx.assumptions += [
-        "the property counts bytes REQUESTED from the allocator (n*sizeof(T)); alignment padding and per-block bookkeeping of a concrete arena are not part of it (estimateMemory's final +1..2 KB is the only allowance)",
+        "the property counts bytes REQUESTED from the allocator (n*sizeof(T)); alignment padding and per-block bookkeeping of a concrete arena are not part of it; what the estimate leaves for them is 40 bytes per auxiliary card and >= 1025 bytes in total (Lean: C19_peak_cost_le_estimate; enough for blocks aligned to <= 16 bytes or 8-byte headers, not for 16-byte headers: C19_arena_overhead_can_exceed)",
+        "the destructor is modelled for a table with ndim >= 1 whose extents and periods arrays exist (true of every loaded table: the translator checks that read_fits_core allocates both unconditionally)",
         "temporaries of convolve (rho, trafo, the new coefficient buffer, saved knots) are new[]/unique_ptr memory, not allocator memory, and are outside the property",
         "an auxiliary key and its raw value come from one 80-column card (strlen(key)+strlen(value) <= 80) and the stored string is not longer than the raw value, both checked on every generated file; FLEN_KEYWORD/FLEN_VALUE alone would not suffice",
         "the coefficient image is consistent with the knot count: no longer an assumption - read_fits_core refuses every other file (Lean: C19_loadable_consistent about the generated predicate; tie: profile I)",
